@@ -594,6 +594,7 @@ def _corpus(tier: str):
         ("FRAME with a wrong length", b"\x80\x04\x95\xff\x00\x00\x00\x00\x00\x00\x00K\x01."), ("FRAME zero", b"\x80\x04\x95\x00\x00\x00\x00\x00\x00\x00\x00K\x01."), ("two PROTO opcodes", b"\x80\x02\x80\x03K\x01."), ("PROTO not first", b"K\x01\x80\x020K\x02."),
         ("POP / DUP / POP_MARK", b"K\x012(K\x02K\x0310."), ("PERSID", b"Pfoo\n."), ("BINPERSID", b"K\x01Q."), ("EMPTY_SET/ADDITEMS/FROZENSET", b"\x80\x04\x8f(K\x01K\x02\x90(K\x03\x91\x86."),
         ("APPEND/SETITEM", b"]K\x01a}K\x01K\x02s\x86."), ("TUPLE1/2/3", b"K\x01\x85K\x02K\x03\x86K\x04K\x05K\x06\x87\x86."), ("DICT/LIST from marks", b"(K\x01K\x02d(K\x03l\x86."), ("NEWTRUE/NEWFALSE/NONE", b"\x80\x02\x88\x89N\x87."),
+        ("torch-like state dict (BINPERSID storage, _rebuild_tensor_v2, OrderedDict + BUILD)", b"\x80\x02ccollections\nOrderedDict\n)R(X\x01\x00\x00\x00wctorch._utils\n_rebuild_tensor_v2\n((X\x07\x00\x00\x00storagectorch\nFloatStorage\nX\x01\x00\x00\x000X\x03\x00\x00\x00cpuK\x04tQK\x00K\x02K\x02\x86K\x02K\x01\x86\x89ccollections\nOrderedDict\n)RtRu}X\x09\x00\x00\x00_metadataccollections\nOrderedDict\n)Rsb."),
         ("EXT1", b"\x82\x01."), ("BYTEARRAY8", b"\x80\x05\x96\x02\x00\x00\x00\x00\x00\x00\x00hi."), ("NEXT_BUFFER", b"\x80\x05\x97."), ("FLOAT text", b"F2.5\n."),
     ]
     out += hand
